@@ -310,6 +310,19 @@ theorem node_size_agree (env : Env) (n : Node) (rp rp' re re' : Resolver) (pc pc
       simp only [emitNode, Except.ok.injEq, Prod.mk.injEq] at he
       obtain ⟨rfl, rfl⟩ := he
       simp [advance, hreloc, hp.2]
+  | argSymbol name e =>
+    unfold pcAfter at hp
+    cases hpar : rp.cur.parent with
+    | none => simp [hpar] at hp
+    | some par =>
+      simp only [hpar] at hp
+      cases hv : evalP env { rp with current := par } e with
+      | error er => simp [hv] at hp
+      | ok v =>
+        simp only [hv, Except.ok.injEq, Prod.mk.injEq] at hp
+        simp only [emitNode, Except.ok.injEq, Prod.mk.injEq] at he
+        obtain ⟨rfl, rfl⟩ := he
+        simp [advance, hreloc, hp.2]
   | symbolConst name v =>
     simp only [pcAfter, Except.ok.injEq, Prod.mk.injEq] at hp
     simp only [emitNode, Except.ok.injEq, Prod.mk.injEq] at he
